@@ -242,12 +242,61 @@ def parse_dint(ans):
     return ("other", ans)
 
 
+_DEFERRED = []
+
+
 def _viol(chk, cat, kind, detail, **kw):
-    """At most 3 replays per category of symptom; the rest is counted."""
+    """At most 3 replays per category of symptom; the rest is counted.  Model disagreements
+    (`correspondence`: the real behaviour is allowed by the statement on that very input) are
+    held back until the whole integer phase has been judged against the spec oracle, so that a
+    concrete failing input of the real code (e.g. the read-back of the writer's own output) is
+    reported first and the disagreement can name it."""
     seen = chk.extra.setdefault("int_violations_by_category", {})
     seen[cat] = seen.get(cat, 0) + 1
     if seen[cat] <= 3:
-        chk.violation(kind, detail, **kw)
+        if kind == "correspondence":
+            _DEFERRED.append((detail, kw))
+        else:
+            chk.violation(kind, detail, **kw)
+
+
+def _flush_deferred(chk, binary):
+    """Before a model disagreement is reported as such, the neighbourhood of its input is
+    searched for a concrete failure of the real code: every canonical rendering (3 bases × digit
+    grouping) of the value the disagreeing text denotes is decoded by the real code and judged by
+    the spec oracle."""
+    probes = []
+    for detail, _kw in _DEFERRED:
+        op = detail.get("op", "")
+        if not op.startswith("DINT ") or "text" not in detail:
+            continue
+        ty = op.split(" ")[1]
+        rv = ref_value(detail["text"])
+        lo, hi = trange(ty)
+        if rv is None or not (lo <= rv <= hi):
+            continue
+        for base in BASES:
+            for g in (False, True):
+                probes.append((ty, py_format(rv, base, g)))
+    probes = sorted(set(probes))
+    if probes:
+        res = cppbuild.run(binary, "".join("DINT %s %s\n" % (ty, hexs(t)) for ty, t in probes), timeout=900)
+        if res.kind == "ok":
+            for (ty, t), a in zip(probes, res.out.split("\n")[:-1]):
+                chk.count()
+                obs = parse_dint(a)
+                problem = ("driver said %r" % a) if obs[0] == "other" else judge_decode(ty, t, obs)[0]
+                if problem:
+                    _viol(chk, "decode:" + ty + ":" + problem.split(" ")[0], "input",
+                          {"op": "DINT %s %s" % (ty, hexs(t)), "text": t, "type": ty, "observed": a,
+                           "expected": problem, "part": "INTCODEC",
+                           "note": "found by probing the canonical renderings of a value on which model and code disagree"})
+    had_input = any(k == "input" for k, _ in chk.violations)
+    for detail, kw in _DEFERRED:
+        if had_input:
+            detail = dict(detail, note="concrete failing inputs of the real code are reported before this line")
+        chk.violation("correspondence", detail, **kw)
+    del _DEFERRED[:]
 
 
 def run_int(chk, tier, model_ok, binary, seed_tag="C06-int"):
@@ -384,6 +433,7 @@ def run_int(chk, tier, model_ok, binary, seed_tag="C06-int"):
             chk.violation("input", {"op": bad, "observed": "%s: %s" % (res2.kind, res2.err[-1500:]),
                                     "expected": "no undefined behaviour decoding the writer's own output",
                                     "part": "INTCODEC"})
+            _flush_deferred(chk, binary)
             return
         real2 = res2.out.split("\n")[:-1]
         model2 = common.Model("model_c06").ask(ops2) if model_ok else [None] * len(ops2)
@@ -400,6 +450,7 @@ def run_int(chk, tier, model_ok, binary, seed_tag="C06-int"):
                 _viol(chk, "corr-readback", "correspondence", {
                     "op": op, "observed": a, "model": b, "expected": "real round trip holds; the model differs",
                     "theorem_or_correspondence": "model_c06 DINT vs DecodeInteger"}, found_input=False)
+    _flush_deferred(chk, binary)
     chk.extra["int_traces_validated_against_impl"] = (len(ops) + len(ops2)) if model_ok else 0
     chk.extra["int_disagreements"] = disagreements
     chk.sample({"op": ops[3], "real": real[3], "model": model[3]})
